@@ -2,6 +2,7 @@
 package main
 
 import (
+	"strings"
 	"fmt"
 
 	"go.dedis.ch/kyber/v4"
@@ -52,6 +53,12 @@ func gen(tier string, seed int64) []hx.Scenario {
 			}
 		}
 	}
+	for _, kind := range []string{"zero", "one"} {
+		for _, sh := range [][2]int{{2, 1}, {3, 2}, {4, 4}} {
+			n, t := sh[0], sh[1]
+			out = append(out, hx.Scenario{Name: "pvss-honest", Cfg: fmt.Sprintf("n=%d t=%d dec=%v secret=%s", n, t, hx.Seq(t), kind), Run: func(x *hx.Ctx) { honest(x, n, t, hx.Seq(t)) }})
+		}
+	}
 	shapes := [][2]int{{3, 2}, {4, 3}}
 	if tier == "thorough" {
 		shapes = append(shapes, [2]int{5, 3}, [2]int{6, 4}, [2]int{4, 4})
@@ -94,6 +101,17 @@ type setup struct {
 	sH     []kyber.Point
 }
 
+// secretKind selects the dealt secret of a scenario: "" random, "zero", "one" (legal degenerate values)
+func dealSecret(x *hx.Ctx, kind string) kyber.Scalar {
+	switch kind {
+	case "zero":
+		return x.S.Scalar().Zero()
+	case "one":
+		return x.S.Scalar().One()
+	}
+	return x.S.Scalar().Pick(x.S.RandomStream())
+}
+
 func deal(x *hx.Ctx, n, t int) *setup {
 	s := x.S
 	st := &setup{s: s, n: n, t: t, G: s.Point().Base(), H: s.Point().Pick(s.RandomStream())}
@@ -102,7 +120,15 @@ func deal(x *hx.Ctx, n, t int) *setup {
 		st.x = append(st.x, k)
 		st.X = append(st.X, s.Point().Mul(k, nil))
 	}
-	st.secret = s.Scalar().Pick(s.RandomStream())
+	kind := ""
+	if strings.Contains(x.Cfg, "secret=zero") {
+		kind = "zero"
+	} else if strings.Contains(x.Cfg, "secret=one") {
+		kind = "one"
+	}
+	st.secret = dealSecret(x, kind)
+	given := st.secret.Clone()
+	defer func() { x.Require("EncShares leaves the caller's secret unchanged", st.secret.Equal(given)) }()
 	var err error
 	st.enc, st.pub, err = pvss.EncShares(s, st.H, st.X, st.secret, uint32(t))
 	x.NoErr("EncShares", err)
